@@ -26,7 +26,7 @@ def confirm(wt, out):
     res = {"meta": meta}
     reset(wt)
     if mod == "node":
-        sh("/tmp/wt-tools/stripp2p/stripp2p " + wt)
+        sh("/root/wt-tools/stripp2p/stripp2p " + wt)
     rc0, o0 = sh(meta["demo_cmd"], timeout=1200)
     res["demo_without_change_passes"] = rc0 == 0
     reset(wt)
@@ -34,8 +34,8 @@ def confirm(wt, out):
     if rc != 0:
         res["error"] = "patch does not apply: " + o[-300:]
         return res
-    rcS, oS = sh("/tmp/wt-tools/suite.sh %s %s" % (wt, mod), timeout=3000)
-    base_file = "/tmp/wt-tools/baseline_%s.txt" % mod.replace("/", "_")
+    rcS, oS = sh("/root/wt-tools/suite.sh %s %s" % (wt, mod), timeout=3000)
+    base_file = "/root/wt-tools/baseline_%s.txt" % mod.replace("/", "_")
     if not os.path.exists(base_file):
         res["error"] = "no baseline for " + mod
         return res
@@ -44,7 +44,7 @@ def confirm(wt, out):
     if not res["suite_same_as_baseline"]:
         res["suite_diff"] = [l for l in oS.splitlines() if l not in base.splitlines()][:10]
     if mod == "node":
-        sh("/tmp/wt-tools/stripp2p/stripp2p " + wt)
+        sh("/root/wt-tools/stripp2p/stripp2p " + wt)
     rc1, o1 = sh(meta["demo_cmd"], timeout=1200)
     res["demo_with_change_fails"] = rc1 != 0
     res["demo_tail_with_change"] = o1[-600:]
